@@ -79,7 +79,11 @@ def _one(c, U, jax, jnp, log_density):
             # counts images, zero padding: pixels that are exactly 0 are data like any other
             zi = rng.integers(0, N, size=(4, 2))
             data[zi[:, 0], zi[:, 1]] = 0.0
-        mask = U.make_mask(rng, N, c["mask_style"], c["mask_dtype"])
+        # multi-band: every other case the LAST band comes without a mask while the first one has the case's mask
+        style_b = c["mask_style"] if (b == 0 or nb == 1 or c["seed"] % 2 == 0) else "none"
+        mask = U.make_mask(rng, N, style_b, c["mask_dtype"])
+        if mask is not None and (c["seed"] // 2) % 2 == 0:
+            rms[np.asarray(mask) != 0] = 0.0          # weight maps hold 0 where there is no data: a valid input when those pixels are masked
         sky = "flat" if positive else ["none", "flat", "tilted-plane"][int(rng.integers(0, 3))]
         if c["kind"] == "multi":
             prior, _ = U.multi_prior(["sersic", "pointsource"], N, rng, sky_type=sky)
